@@ -976,6 +976,13 @@ class EClass(EClassifier):
                     # ... nor the mark that it was set: the feature may come
                     # back, and then it has never been set on this instance
                     instance._isset.pop(value.feature, None)
+                    # ... nor stay on record with what it referred to
+                    held = (value if isinstance(value, ECollection)
+                            else [value._value])
+                    for target in held:
+                        if hasattr(target, '_inverse_rels'):
+                            target._inverse_rels.discard((instance,
+                                                          value.feature))
 
     def __create_fun(self, eoperation):
         name = eoperation.normalized_name()
